@@ -280,6 +280,28 @@ async def main(args):
                     stall_points += 1
                 except Exception:
                     pass
+        # clients whose complete request is refused and who then just keep the connection open
+        refused = [(P["http"], b"GET http://example.com/ HTTP/1.1\r\nHost: example.com\r\n\r\n"),
+                   (P["http"], b"CONNECT 127.0.0.1:1 HTTP/1.1\r\nProxy-Protocol: sctp\r\n\r\n"),
+                   (P["http"], b"CONNECT 127.0.0.1:1 HTTP/1.1\r\nProxy-Protocol: udp\r\nProxy-Channel: carrier-pigeon\r\n\r\n"),
+                   (P["http"], b"CONNECT not-an-authority HTTP/1.1\r\n\r\n"),
+                   (P["socks"], bytes([5, 1, 0, 5, 2, 0, 1, 127, 0, 0, 1, 0, 80])),      # BIND
+                   (P["socks"], bytes([5, 1, 0, 5, 9, 0, 1, 127, 0, 0, 1, 0, 80])),      # unknown command
+                   (P["socksauth"], bytes([5, 1, 2, 1, 1]) + b"x" + bytes([1]) + b"y"),  # wrong password
+                   (P["socks"], bytes([4, 2, 0, 80, 127, 0, 0, 1, 0]))]                  # SOCKS4 BIND
+        for lport, data in refused:
+            try:
+                c = await open_conn("127.0.0.1", lport)
+                c.write(data)
+                await c.drain()
+                try:
+                    await c.read_some(4096, timeout=1.0)   # take the refusal, then idle
+                except Exception:
+                    pass
+                held.append(c)
+                stall_points += 1
+            except Exception:
+                pass
         # a QUIC handshake whose packets stop arriving (through the dropping relay)
         stalled_quic = asyncio.ensure_future(probe_via(P["S.http"], origin.port))
         stall_points += 1
